@@ -969,6 +969,71 @@ def other_entry_points(run, vsim, d, quick, cfgname, fmt, data, verdicts, r):
     return n
 
 
+def load_measured(vsim, d, fname, config):
+    """load a state in a fresh process and measure its peak resident memory (kB) -> rc, (err, it) | None, maxrss"""
+    scn = os.path.join(d.path, "l.scn")
+    open(scn, "w").write(load_scenario(fname, config))
+    env = dict(os.environ)
+    env.update({"ASAN_OPTIONS": "abort_on_error=1:detect_leaks=0:allocator_may_return_null=1", "UBSAN_OPTIONS": "halt_on_error=1:abort_on_error=1",
+                "OMP_NUM_THREADS": "1"})
+    pr = subprocess.Popen(["timeout", "-s", "KILL", "20", vsim, scn], cwd=d.path, stdout=subprocess.PIPE, stderr=subprocess.DEVNULL, env=env)
+    out = pr.stdout.read().decode("latin1")
+    pid, status, ru = os.wait4(pr.pid, 0)
+    pr.returncode = -(status & 0x7f) if (status & 0x7f) else (status >> 8)
+    os.remove(scn)
+    m = re.search(r"LOAD err=(\S+) it=(-?\d+)", out)
+    return pr.returncode, ((m.group(1), int(m.group(2))) if m else None), ru.ru_maxrss
+
+
+def run_corrupt_counts(run, vsim, d, quick):
+    """a count or a length in a state is corrupted to a large value (2^22, 2^40; text: 4000000, 999999999999): the load must
+    end (no signal, no timeout) and must not make the process allocate in proportion to the corrupt number: peak resident
+    memory within 150 MB of what loading the intact state takes (the states are a few kB)"""
+    r = V.rng("C11counts")
+    p = os.path.join(d.path, "dmg.colvars.state")
+    for cfgname in (["extra", "base", "grid"] if quick else ["extra", "base", "grid", "eabf", "twin", "hist", "sabf"]):
+        sess = {"first": 0, "pre": 6, "saves": ["text", "binary"]}
+        if cfgname != "base":
+            sess["config"] = cfgname
+        refs, chunking, rel = reference(vsim, d, sess)
+        text, binary = refs
+        open(p, "wb").write(binary)
+        rc0, ld0, base_rss = load_measured(vsim, d, "dmg.colvars.state", cfgname)
+        cases = []
+        # binary: the 8 bytes after every keyword record, and every 8-byte length word of a string record
+        recs = [m for m in re.finditer(rb"[\x01-\x20]\x00{7}[a-zA-Z_]{3,24}", binary)
+                if struct.unpack("<Q", binary[m.start():m.start() + 8])[0] == m.end() - m.start() - 8]
+        spots = sorted(set([m.end() for m in recs if m.end() + 8 <= len(binary)] + [m.start() for m in recs]))
+        if quick:
+            keyspots = [m.end() for m in recs if binary[m.start() + 8:m.end()] in (b"num_hills", b"counter", b"step", b"hills")]
+            spots = sorted(set(keyspots + r.sample(spots, min(len(spots), 6))))
+        for sp in spots:
+            for val in (1 << 22, 1 << 40):
+                bb = bytearray(binary); bb[sp:sp + 8] = struct.pack("<Q", val)
+                cases.append(("binary", "8 bytes at %d := %d" % (sp, val), bytes(bb), {"at": sp, "value": val}))
+        # text: every integer that follows a word
+        tx = text.decode("latin1")
+        ints = [m for m in re.finditer(r"(?<=[A-Za-z_] )\s*(\d+)(?=\s)", tx)]
+        if quick:
+            ints = [m for m in ints if re.search(r"(num_hills|numHills|counter|sizes|step)\s+$", tx[max(0, m.start() - 24):m.start(1)])][:6] + r.sample(ints, min(len(ints), 3))
+        for m in ints:
+            for val in ("4000000", "999999999999"):
+                cases.append(("text", "integer at %d := %s" % (m.start(1), val), (tx[:m.start(1)] + val + tx[m.end(1):]).encode("latin1"), {"at": m.start(1), "value": val}))
+        for fmt, what, data, rp in cases:
+            open(p, "wb").write(data)
+            rc, ld, rss = load_measured(vsim, d, "dmg.colvars.state", cfgname)
+            run.count("corrupt-count-%s-%s-%s" % (cfgname, fmt, what), True)
+            run.dist("damage:%s-corrupt-count" % fmt)
+            rp = dict(rp, kind="corrupt-count", config=cfgname, format=fmt)
+            if rc >= 128 or rc == 124 or rc < 0 or ld is None:
+                run.violation("load.crash:corrupt-count", "loading a valid %s state (%s configuration) with %s kills or hangs the process (rc=%d)" % (fmt, cfgname, what, rc), rp)
+            elif rss > base_rss + 150000:
+                run.violation("load.memory:corrupt-count", "loading a valid %d-byte %s state (%s configuration) with %s takes %d MB of resident memory (%d MB for the intact state): "
+                              "the reader allocates in proportion to a number it has not checked against the data" % (len(data), fmt, cfgname, what, rss // 1000, base_rss // 1000), rp)
+    if os.path.exists(p):
+        os.remove(p)
+
+
 def run_sessions_with_failed_loads(run, vsim, d, quick):
     """a host that keeps running after rejected loads: in ONE process, several damaged states are loaded (each must be
     rejected or accepted without crashing), then the undamaged state: it must load with err=ok and the right step, and a
@@ -1079,6 +1144,7 @@ def run_large_steps_and_cross_loads(run, vsim, d, quick):
 def run_damage_grid(run, vsim, d, quick, model):
     run_sessions_with_failed_loads(run, vsim, d, quick)
     run_large_steps_and_cross_loads(run, vsim, d, quick)
+    run_corrupt_counts(run, vsim, d, quick)
     for cfgname in ("grid", "extra", "eabf", "eabf_nocz", "eabf_harm", "hist", "sabf", "twin"):
         run_damage_config(run, vsim, d, quick, model, cfgname)
 
@@ -1368,6 +1434,23 @@ def replay(rp, vsim, model):
         for nme in (NAME, NAME + ".old"):
             if os.path.exists(os.path.join(d.path, nme)):
                 print("load", nme, try_load_(vsim, d, nme))
+    elif rp["kind"] == "corrupt-count":
+        cfgname = rp.get("config", "base")
+        sess = {"first": 0, "pre": 6, "saves": ["text", "binary"]}
+        if cfgname != "base":
+            sess["config"] = cfgname
+        refs, chunking, rel = reference(vsim, d, sess)
+        pth = os.path.join(d.path, "dmg.colvars.state")
+        if rp["format"] == "binary":
+            bb = bytearray(refs[1]); bb[rp["at"]:rp["at"] + 8] = struct.pack("<Q", int(rp["value"])); data = bytes(bb)
+        else:
+            tx = refs[0].decode("latin1")
+            m = re.compile(r"\d+").match(tx, rp["at"])
+            data = (tx[:rp["at"]] + str(rp["value"]) + tx[m.end():]).encode("latin1")
+        open(pth, "wb").write(refs[1] if rp["format"] == "binary" else refs[0])
+        print("intact state: rc, load, maxrss kB =", load_measured(vsim, d, "dmg.colvars.state", cfgname))
+        open(pth, "wb").write(data)
+        print("corrupt state: rc, load, maxrss kB =", load_measured(vsim, d, "dmg.colvars.state", cfgname), "file:", pth)
     elif rp["kind"] == "load-name":
         sess = {"first": 0, "pre": 3, "saves": ["text", "text"]}
         rel, res, rc = run_session(vsim, d, sess, [])
